@@ -39,11 +39,18 @@ def run(ck, F):
     if len(getters) < 20:
         raise AnalysisBroken(f'only {len(getters)} type_factory::get_* definitions found')
     cons = {}
-    for f in getters:
+    import wire
+    known = wire.confirmed_ids()
+    for f in list(getters):
         try:
             cons[f['id']] = contracts.factory_contract(F, f, S, accessor_filter=lambda n: True)
         except Unsupported as e:
-            raise AnalysisBroken(f'{f["id"]}: outside the evaluator language: {e}')
+            if f['id'] in known:
+                raise AnalysisBroken(f'{f["id"]}: outside the evaluator language: {e}')
+            # a constructor added since the contract table was confirmed, written outside the evaluator's language:
+            # nothing is claimed about it (and nothing alarmed)
+            ck.note(f'new type constructor not analysed: {f["id"]}: {e}')
+            getters.remove(f)
 
     # ------------------------------------------------------------ NAMING
     RN = ck.rule('C01.NAMING', 'every type constructor of the statement yields, on every path, an element of an '
